@@ -90,10 +90,14 @@ theorem outputPacket_ok (s : SwitchState) (port : Nat) (h : port ≠ OFPP_TABLE)
     | exact ⟨s, [], rfl, by simp⟩
     | (rw [if_neg h]; exact ⟨s, [], rfl, by simp⟩)
 
+theorem outputAction_of_ne (s : SwitchState) (ip : Option Nat) {port : Nat} (h : port ≠ OFPP_TABLE) :
+    outputAction s ip port = outputPacket s port := by
+  unfold outputAction; rw [if_neg h]
+
 /-- in scope, action processing never fails; it writes asynchronous messages and at most the BAD_ACTION/BAD_TYPE error
 (only when some action type has no handler) -/
-theorem processActions_ok (xid : Nat) (acts : List Act) (hs : actsInScope acts) (s : SwitchState) :
-    ∃ s' o, processActions xid s acts = .ok (s', o) ∧
+theorem processActions_ok (xid : Nat) (ip : Option Nat) (acts : List Act) (hs : actsInScope acts) (s : SwitchState) :
+    ∃ s' o, processActions xid ip s acts = .ok (s', o) ∧
       ∀ r ∈ o, r.isAsync = true ∨ (r = .error xid OFPET_BAD_ACTION OFPBAC_BAD_TYPE ∧ ∃ a ∈ acts, actionTable.lookup a.ty = none) := by
   induction acts generalizing s with
   | nil => exact ⟨s, [], rfl, by simp⟩
@@ -108,7 +112,7 @@ theorem processActions_ok (xid : Nat) (acts : List Act) (hs : actsInScope acts) 
       simp only [List.mem_singleton] at hr
       exact .inr ⟨hr, a, List.mem_cons_self, hl⟩
     | some ah =>
-      have lift : ∀ (s1 : SwitchState), ∃ s' o, processActions xid s1 rest = .ok (s', o) ∧
+      have lift : ∀ (s1 : SwitchState), ∃ s' o, processActions xid ip s1 rest = .ok (s', o) ∧
           ∀ r ∈ o, r.isAsync = true ∨ (r = .error xid OFPET_BAD_ACTION OFPBAC_BAD_TYPE ∧ ∃ b ∈ a :: rest, actionTable.lookup b.ty = none) := by
         intro s1
         obtain ⟨s', o, h1, h2⟩ := ih hrest s1
@@ -121,6 +125,7 @@ theorem processActions_ok (xid : Nat) (acts : List Act) (hs : actsInScope acts) 
       | output =>
         have h0 := action_output_code hl
         obtain ⟨s1, o1, e1, a1⟩ := outputPacket_ok s a.port (fun hp => ha.2 ⟨h0, hp⟩)
+        rw [← outputAction_of_ne s ip (fun hp => ha.2 ⟨h0, hp⟩)] at e1
         obtain ⟨s2, o2, e2, a2⟩ := lift s1
         simp only [e1, e2]
         refine ⟨s2, o1 ++ o2, rfl, ?_⟩
@@ -149,8 +154,8 @@ def ActOut (xid : Nat) (acts : List Act) (dead : Prop) (r : Reply) : Prop :=
   r.isAsync = true ∨ (r = .error xid OFPET_BAD_ACTION OFPBAC_BAD_TYPE ∧ ∃ a ∈ acts, actionTable.lookup a.ty = none) ∨
     (dead ∧ IsBufferErr xid r)
 
-theorem processFromBuffer_ok (xid : Nat) (s : SwitchState) (acts : List Act) (id : Nat) (hs : actsInScope acts) :
-    ∃ s' o, processFromBuffer xid s acts id = .ok (s', o) ∧ ∀ r ∈ o, ActOut xid acts (bufferLive s id = false) r := by
+theorem processFromBuffer_ok (xid : Nat) (ip : Option Nat) (s : SwitchState) (acts : List Act) (id : Nat) (hs : actsInScope acts) :
+    ∃ s' o, processFromBuffer xid ip s acts id = .ok (s', o) ∧ ∀ r ∈ o, ActOut xid acts (bufferLive s id = false) r := by
   unfold processFromBuffer
   by_cases h0 : id = 0
   · rw [if_pos h0]
@@ -163,7 +168,7 @@ theorem processFromBuffer_ok (xid : Nat) (s : SwitchState) (acts : List Act) (id
     · rw [dif_pos h]
       by_cases hb : s.buffers[id - 1] = true
       · rw [if_pos hb]
-        obtain ⟨s1, o, e, a⟩ := processActions_ok xid acts hs s
+        obtain ⟨s1, o, e, a⟩ := processActions_ok xid ip acts hs s
         simp only [e]
         refine ⟨_, o, rfl, ?_⟩
         intro r hr
@@ -188,13 +193,13 @@ theorem processFromBuffer_ok (xid : Nat) (s : SwitchState) (acts : List Act) (id
       have : s.buffers[id - 1]? = none := List.getElem?_eq_none (by omega)
       simp [bufferLive, List.getD_eq_getElem?_getD, this]
 
-theorem rxPacketOut_ok (s : SwitchState) (xid : Nat) (b : Option Nat) (d : Bool) (acts : List Act) (hs : actsInScope acts) :
-    ∃ s' o, rxPacketOut s xid b d acts = .ok (s', o) ∧
+theorem rxPacketOut_ok (s : SwitchState) (xid : Nat) (b : Option Nat) (d : Bool) (p : Nat) (acts : List Act) (hs : actsInScope acts) :
+    ∃ s' o, rxPacketOut s xid b d p acts = .ok (s', o) ∧
       ∀ r ∈ o, ActOut xid acts (d = false ∧ ∃ id, b = some id ∧ bufferLive s id = false) r := by
   unfold rxPacketOut
   cases d with
   | true =>
-    obtain ⟨s1, o, e, a⟩ := processActions_ok xid acts hs s
+    obtain ⟨s1, o, e, a⟩ := processActions_ok xid (some p) acts hs s
     refine ⟨s1, o, by simpa using e, ?_⟩
     intro r hr
     rcases a r hr with h1 | h1
@@ -205,7 +210,7 @@ theorem rxPacketOut_ok (s : SwitchState) (xid : Nat) (b : Option Nat) (d : Bool)
     cases b with
     | none => exact ⟨s, [], rfl, by simp⟩
     | some id =>
-      obtain ⟨s1, o, e, a⟩ := processFromBuffer_ok xid s acts id hs
+      obtain ⟨s1, o, e, a⟩ := processFromBuffer_ok xid (some p) s acts id hs
       refine ⟨s1, o, e, ?_⟩
       intro r hr
       rcases a r hr with h1 | h1 | ⟨h1, h2⟩
@@ -318,7 +323,7 @@ theorem rxFlowModBody_ok (s : SwitchState) (xid command : Nat) (mk : MKey) (prio
     cases b with
     | none => exact ⟨_, _, rfl, hok⟩
     | some id =>
-      obtain ⟨s2, o2, e2, a2⟩ := processFromBuffer_ok xid (runFlowMod h s xid command mk prio cookie flags idle hard outPort acts).1 acts id hs
+      obtain ⟨s2, o2, e2, a2⟩ := processFromBuffer_ok xid none (runFlowMod h s xid command mk prio cookie flags idle hard outPort acts).1 acts id hs
       simp only [e2]
       refine ⟨s2, _, rfl, ?_⟩
       intro r hr
@@ -580,7 +585,7 @@ end Pox.SwitchReq
 namespace Pox.SwitchReq
 open Pox.Generated.SwitchDispatch
 
-/-- everything of the switch state except the flow table and the packet buffers -/
+/-- everything of the switch state except the flow table, the packet buffers and the two table counters -/
 structure Fixed where
   dpid : Nat
   maxBuffers : Nat
@@ -588,8 +593,6 @@ structure Fixed where
   caps : Nat
   actionBits : Nat
   portStats : List PortCtr
-  lookupCount : Nat
-  matchedCount : Nat
   configFlags : Nat
   missSendLen : Nat
   hasSentHello : Bool
@@ -598,7 +601,7 @@ structure Fixed where
 
 def fixedOf (s : SwitchState) : Fixed :=
   { dpid := s.dpid, maxBuffers := s.maxBuffers, maxEntries := s.maxEntries, caps := s.caps, actionBits := s.actionBits,
-    portStats := s.portStats, lookupCount := s.lookupCount, matchedCount := s.matchedCount, configFlags := s.configFlags,
+    portStats := s.portStats, configFlags := s.configFlags,
     missSendLen := s.missSendLen, hasSentHello := s.hasSentHello, ports := s.ports }
 
 theorem bufferPacket_fixed (s : SwitchState) : fixedOf (bufferPacket s).1 = fixedOf s := by
@@ -614,8 +617,46 @@ theorem outputPacket_fixed {s s' : SwitchState} {port : Nat} {o : List Reply} (h
     | (injection h with h; injection h with h1 _; subst h1; first | rfl | exact bufferPacket_fixed s)
     | (cases h)
 
-theorem processActions_fixed (xid : Nat) (acts : List Act) {s s' : SwitchState} {o : List Reply}
-    (h : processActions xid s acts = .ok (s', o)) : fixedOf s' = fixedOf s := by
+theorem runOuts_fixed {outs : List Nat} {s s' : SwitchState} {o : List Reply} (h : runOuts s outs = .ok (s', o)) :
+    fixedOf s' = fixedOf s := by
+  induction outs generalizing s o with
+  | nil => simp only [runOuts] at h; injection h with h; injection h with h1 _; subst h1; rfl
+  | cons p r ih =>
+    unfold runOuts at h
+    cases ho : outputPacket s p with
+    | error e => rw [ho] at h; cases h
+    | ok r1 =>
+      obtain ⟨s1, o1⟩ := r1
+      rw [ho] at h; simp only at h
+      cases hp : runOuts s1 r with
+      | error e => rw [hp] at h; cases h
+      | ok r2 =>
+        obtain ⟨s2, o2⟩ := r2
+        rw [hp] at h; simp only at h
+        injection h with h; injection h with h1 _; subst h1
+        rw [ih hp, outputPacket_fixed ho]
+
+theorem lookupPacket_fixed {s s' : SwitchState} {p : Nat} {o : List Reply} (h : lookupPacket s p = .ok (s', o)) :
+    fixedOf s' = fixedOf s := by
+  unfold lookupPacket at h
+  split at h
+  · rw [runOuts_fixed h]; rfl
+  · split at h
+    · injection h with h; injection h with h1 _; subst h1; rfl
+    · injection h with h; injection h with h1 _; subst h1
+      rw [bufferPacket_fixed]; rfl
+
+theorem outputAction_fixed {s s' : SwitchState} {ip : Option Nat} {port : Nat} {o : List Reply}
+    (h : outputAction s ip port = .ok (s', o)) : fixedOf s' = fixedOf s := by
+  unfold outputAction at h
+  split at h
+  · cases ip with
+    | none => cases h
+    | some p => exact lookupPacket_fixed h
+  · exact outputPacket_fixed h
+
+theorem processActions_fixed (xid : Nat) (ip : Option Nat) (acts : List Act) {s s' : SwitchState} {o : List Reply}
+    (h : processActions xid ip s acts = .ok (s', o)) : fixedOf s' = fixedOf s := by
   induction acts generalizing s o with
   | nil =>
     simp only [processActions] at h
@@ -631,18 +672,18 @@ theorem processActions_fixed (xid : Nat) (acts : List Act) {s s' : SwitchState} 
       cases ah with
       | output =>
         simp only at h
-        cases ho : outputPacket s a.port with
+        cases ho : outputAction s ip a.port with
         | error e => rw [ho] at h; cases h
         | ok r1 =>
           obtain ⟨s1, o1⟩ := r1
           rw [ho] at h; simp only at h
-          cases hp : processActions xid s1 rest with
+          cases hp : processActions xid ip s1 rest with
           | error e => rw [hp] at h; cases h
           | ok r2 =>
             obtain ⟨s2, o2⟩ := r2
             rw [hp] at h; simp only at h
             injection h with h; injection h with h1 _; subst h1
-            rw [ih hp, outputPacket_fixed ho]
+            rw [ih hp, outputAction_fixed ho]
       | enqueue => simp only at h; cases h
       | setVlanVid => exact ih h
       | setVlanPcp => exact ih h
@@ -655,32 +696,32 @@ theorem processActions_fixed (xid : Nat) (acts : List Act) {s s' : SwitchState} 
       | setTpSrc => exact ih h
       | setTpDst => exact ih h
 
-theorem processFromBuffer_fixed (xid : Nat) (acts : List Act) (id : Nat) {s s' : SwitchState} {o : List Reply}
-    (h : processFromBuffer xid s acts id = .ok (s', o)) : fixedOf s' = fixedOf s := by
+theorem processFromBuffer_fixed (xid : Nat) (ip : Option Nat) (acts : List Act) (id : Nat) {s s' : SwitchState} {o : List Reply}
+    (h : processFromBuffer xid ip s acts id = .ok (s', o)) : fixedOf s' = fixedOf s := by
   unfold processFromBuffer at h
   split at h
   · injection h with h; injection h with h1 _; subst h1; rfl
   split at h
   · split at h
-    · cases hp : processActions xid s acts with
+    · cases hp : processActions xid ip s acts with
       | error e => rw [hp] at h; cases h
       | ok r =>
         obtain ⟨s1, o1⟩ := r
         rw [hp] at h; simp only at h
         injection h with h; injection h with h1 _; subst h1
-        have h2 : fixedOf s1 = fixedOf s := processActions_fixed xid acts hp
+        have h2 : fixedOf s1 = fixedOf s := processActions_fixed xid ip acts hp
         exact h2
     · injection h with h; injection h with h1 _; subst h1; rfl
   · injection h with h; injection h with h1 _; subst h1; rfl
 
-theorem rxPacketOut_fixed {s s' : SwitchState} {xid : Nat} {b : Option Nat} {d : Bool} {acts : List Act} {o : List Reply}
-    (h : rxPacketOut s xid b d acts = .ok (s', o)) : fixedOf s' = fixedOf s := by
+theorem rxPacketOut_fixed {s s' : SwitchState} {xid : Nat} {b : Option Nat} {d : Bool} {p : Nat} {acts : List Act} {o : List Reply}
+    (h : rxPacketOut s xid b d p acts = .ok (s', o)) : fixedOf s' = fixedOf s := by
   unfold rxPacketOut at h
   split at h
-  · exact processActions_fixed xid acts h
+  · exact processActions_fixed xid (some p) acts h
   · cases b with
     | none => simp only at h; injection h with h; injection h with h1 _; subst h1; rfl
-    | some id => exact processFromBuffer_fixed xid acts id h
+    | some id => exact processFromBuffer_fixed xid (some p) acts id h
 
 theorem runFlowMod_fixed (h : FlowModH) (s : SwitchState) (xid command : Nat) (mk : MKey) (prio cookie flags idle hard outPort : Nat)
     (acts : List Act) : fixedOf (runFlowMod h s xid command mk prio cookie flags idle hard outPort acts).1 = fixedOf s := by
@@ -718,13 +759,13 @@ theorem rxFlowModBody_fixed {s s' : SwitchState} {xid command : Nat} {mk : MKey}
       exact h2
     | some id =>
       simp only at h
-      cases hp : processFromBuffer xid (runFlowMod hd s xid command mk prio cookie flags idle hard outPort acts).1 acts id with
+      cases hp : processFromBuffer xid none (runFlowMod hd s xid command mk prio cookie flags idle hard outPort acts).1 acts id with
       | error e => rw [hp] at h; cases h
       | ok r =>
         obtain ⟨s2, o2⟩ := r
         rw [hp] at h; simp only at h
         injection h with h; injection h with h1 _; subst h1
-        rw [processFromBuffer_fixed xid acts id hp]
+        rw [processFromBuffer_fixed xid none acts id hp]
         exact runFlowMod_fixed hd s xid command mk prio cookie flags idle hard outPort acts
 
 /-- port number and hardware address of a port never change -/
@@ -816,8 +857,46 @@ theorem outputPacket_table {s s' : SwitchState} {port : Nat} {o : List Reply} (h
     | (injection h with h; injection h with h1 _; subst h1; first | rfl | exact bufferPacket_table s)
     | (cases h)
 
-theorem processActions_table (xid : Nat) (acts : List Act) {s s' : SwitchState} {o : List Reply}
-    (h : processActions xid s acts = .ok (s', o)) : s'.table = s.table := by
+theorem runOuts_table {outs : List Nat} {s s' : SwitchState} {o : List Reply} (h : runOuts s outs = .ok (s', o)) :
+    s'.table = s.table := by
+  induction outs generalizing s o with
+  | nil => simp only [runOuts] at h; injection h with h; injection h with h1 _; subst h1; rfl
+  | cons p r ih =>
+    unfold runOuts at h
+    cases ho : outputPacket s p with
+    | error e => rw [ho] at h; cases h
+    | ok r1 =>
+      obtain ⟨s1, o1⟩ := r1
+      rw [ho] at h; simp only at h
+      cases hp : runOuts s1 r with
+      | error e => rw [hp] at h; cases h
+      | ok r2 =>
+        obtain ⟨s2, o2⟩ := r2
+        rw [hp] at h; simp only at h
+        injection h with h; injection h with h1 _; subst h1
+        rw [ih hp, outputPacket_table ho]
+
+theorem lookupPacket_table {s s' : SwitchState} {p : Nat} {o : List Reply} (h : lookupPacket s p = .ok (s', o)) :
+    s'.table = s.table := by
+  unfold lookupPacket at h
+  split at h
+  · rw [runOuts_table h]
+  · split at h
+    · injection h with h; injection h with h1 _; subst h1; rfl
+    · injection h with h; injection h with h1 _; subst h1
+      rw [bufferPacket_table]
+
+theorem outputAction_table {s s' : SwitchState} {ip : Option Nat} {port : Nat} {o : List Reply}
+    (h : outputAction s ip port = .ok (s', o)) : s'.table = s.table := by
+  unfold outputAction at h
+  split at h
+  · cases ip with
+    | none => cases h
+    | some p => exact lookupPacket_table h
+  · exact outputPacket_table h
+
+theorem processActions_table (xid : Nat) (ip : Option Nat) (acts : List Act) {s s' : SwitchState} {o : List Reply}
+    (h : processActions xid ip s acts = .ok (s', o)) : s'.table = s.table := by
   induction acts generalizing s o with
   | nil =>
     simp only [processActions] at h
@@ -833,18 +912,18 @@ theorem processActions_table (xid : Nat) (acts : List Act) {s s' : SwitchState} 
       cases ah with
       | output =>
         simp only at h
-        cases ho : outputPacket s a.port with
+        cases ho : outputAction s ip a.port with
         | error e => rw [ho] at h; cases h
         | ok r1 =>
           obtain ⟨s1, o1⟩ := r1
           rw [ho] at h; simp only at h
-          cases hp : processActions xid s1 rest with
+          cases hp : processActions xid ip s1 rest with
           | error e => rw [hp] at h; cases h
           | ok r2 =>
             obtain ⟨s2, o2⟩ := r2
             rw [hp] at h; simp only at h
             injection h with h; injection h with h1 _; subst h1
-            rw [ih hp, outputPacket_table ho]
+            rw [ih hp, outputAction_table ho]
       | enqueue => simp only at h; cases h
       | setVlanVid => exact ih h
       | setVlanPcp => exact ih h
@@ -857,32 +936,32 @@ theorem processActions_table (xid : Nat) (acts : List Act) {s s' : SwitchState} 
       | setTpSrc => exact ih h
       | setTpDst => exact ih h
 
-theorem processFromBuffer_table (xid : Nat) (acts : List Act) (id : Nat) {s s' : SwitchState} {o : List Reply}
-    (h : processFromBuffer xid s acts id = .ok (s', o)) : s'.table = s.table := by
+theorem processFromBuffer_table (xid : Nat) (ip : Option Nat) (acts : List Act) (id : Nat) {s s' : SwitchState} {o : List Reply}
+    (h : processFromBuffer xid ip s acts id = .ok (s', o)) : s'.table = s.table := by
   unfold processFromBuffer at h
   split at h
   · injection h with h; injection h with h1 _; subst h1; rfl
   split at h
   · split at h
-    · cases hp : processActions xid s acts with
+    · cases hp : processActions xid ip s acts with
       | error e => rw [hp] at h; cases h
       | ok r =>
         obtain ⟨s1, o1⟩ := r
         rw [hp] at h; simp only at h
         injection h with h; injection h with h1 _; subst h1
-        have h2 : s1.table = s.table := processActions_table xid acts hp
+        have h2 : s1.table = s.table := processActions_table xid ip acts hp
         exact h2
     · injection h with h; injection h with h1 _; subst h1; rfl
   · injection h with h; injection h with h1 _; subst h1; rfl
 
-theorem rxPacketOut_table {s s' : SwitchState} {xid : Nat} {b : Option Nat} {d : Bool} {acts : List Act} {o : List Reply}
-    (h : rxPacketOut s xid b d acts = .ok (s', o)) : s'.table = s.table := by
+theorem rxPacketOut_table {s s' : SwitchState} {xid : Nat} {b : Option Nat} {d : Bool} {p : Nat} {acts : List Act} {o : List Reply}
+    (h : rxPacketOut s xid b d p acts = .ok (s', o)) : s'.table = s.table := by
   unfold rxPacketOut at h
   split at h
-  · exact processActions_table xid acts h
+  · exact processActions_table xid (some p) acts h
   · cases b with
     | none => simp only at h; injection h with h; injection h with h1 _; subst h1; rfl
-    | some id => exact processFromBuffer_table xid acts id h
+    | some id => exact processFromBuffer_table xid (some p) acts id h
 
 
 /-! #### every table entry can be reported: its `ofp_flow_stats` encoding fits into one message part -/
@@ -962,14 +1041,14 @@ theorem rxFlowModBody_fit {s s' : SwitchState} {xid command : Nat} {mk : MKey} {
       exact hf
     | some id =>
       simp only at h
-      cases hp : processFromBuffer xid (runFlowMod hd s xid command mk prio cookie flags idle hard outPort acts).1 acts id with
+      cases hp : processFromBuffer xid none (runFlowMod hd s xid command mk prio cookie flags idle hard outPort acts).1 acts id with
       | error e => rw [hp] at h; cases h
       | ok r =>
         obtain ⟨s2, o2⟩ := r
         rw [hp] at h; simp only at h
         injection h with h; injection h with h1 _; subst h1
         intro x hx
-        rw [processFromBuffer_table xid acts id hp] at hx
+        rw [processFromBuffer_table xid none acts id hp] at hx
         exact hf x hx
 
 theorem rxPortMod_table (s : SwitchState) (xid portNo hw config mask : Nat) :
@@ -1055,14 +1134,14 @@ theorem rxFlowMod_fit {s s' : SwitchState} {xid command : Nat} {mk : MKey} {prio
         exact hfit
       | some id =>
         simp only at h
-        cases hp : processFromBuffer xid (runFlowMod hd s xid command mk prio cookie flags idle hard outPort acts).1 acts id with
+        cases hp : processFromBuffer xid none (runFlowMod hd s xid command mk prio cookie flags idle hard outPort acts).1 acts id with
         | error e => rw [hp] at h; cases h
         | ok r =>
           obtain ⟨s2, o2⟩ := r
           rw [hp] at h; simp only at h
           injection h with h; injection h with h1 _; subst h1
           intro x hx
-          rw [processFromBuffer_table xid acts id hp] at hx
+          rw [processFromBuffer_table xid none acts id hp] at hx
           exact hfit x hx
 
 theorem tooMany_false {command : Nat} {acts : List Act} (h : 88 + actsLenOf acts ≤ 65523) : tooManyActions command acts = false := by
@@ -1084,5 +1163,511 @@ theorem badActions_false {command : Nat} {acts : List Act} (hk : ∀ a ∈ acts,
     | none => rw [hl] at this; cases this
     | some _ => simp
   rw [this]; simp
+
+end Pox.SwitchReq
+
+/-! ### the table counters: every packet that reaches the flow table is counted, whichever way it came -/
+namespace Pox.SwitchReq
+open Pox.Generated.SwitchDispatch
+
+/-- the two counters an OFPST_TABLE reply reports are where they were -/
+def CtrSame (s s' : SwitchState) : Prop := s'.lookupCount = s.lookupCount ∧ s'.matchedCount = s.matchedCount
+
+theorem CtrSame.refl (s : SwitchState) : CtrSame s s := ⟨rfl, rfl⟩
+
+theorem CtrSame.trans {a b c : SwitchState} (h1 : CtrSame a b) (h2 : CtrSame b c) : CtrSame a c :=
+  ⟨h2.1.trans h1.1, h2.2.trans h1.2⟩
+
+theorem bufferPacket_ctr (s : SwitchState) : CtrSame s (bufferPacket s).1 := by
+  unfold bufferPacket
+  repeat' (first | split | dsimp only)
+  all_goals exact ⟨rfl, rfl⟩
+
+theorem outputPacket_ctr {s s' : SwitchState} {port : Nat} {o : List Reply} (h : outputPacket s port = .ok (s', o)) :
+    CtrSame s s' := by
+  unfold outputPacket at h
+  repeat' split at h
+  all_goals first
+    | (injection h with h; injection h with h1 _; subst h1; first | exact ⟨rfl, rfl⟩ | exact bufferPacket_ctr s)
+    | (cases h)
+
+theorem runOuts_ctr {outs : List Nat} {s s' : SwitchState} {o : List Reply} (h : runOuts s outs = .ok (s', o)) :
+    CtrSame s s' := by
+  induction outs generalizing s o with
+  | nil => simp only [runOuts] at h; injection h with h; injection h with h1 _; subst h1; exact ⟨rfl, rfl⟩
+  | cons p r ih =>
+    unfold runOuts at h
+    cases ho : outputPacket s p with
+    | error e => rw [ho] at h; cases h
+    | ok r1 =>
+      obtain ⟨s1, o1⟩ := r1
+      rw [ho] at h; simp only at h
+      cases hp : runOuts s1 r with
+      | error e => rw [hp] at h; cases h
+      | ok r2 =>
+        obtain ⟨s2, o2⟩ := r2
+        rw [hp] at h; simp only at h
+        injection h with h; injection h with h1 _; subst h1
+        exact (outputPacket_ctr ho).trans (ih hp)
+
+/-- a packet that came in on port `p` (`none`: in_port not known to the model) matches some entry -/
+def hitOf (s : SwitchState) : Option Nat → Bool
+  | some p => s.table.any (hitsPort p)
+  | none => false
+
+/-- one lookup: `lookup_count` moves by one, `matched_count` by one exactly when an entry matches -/
+theorem lookupPacket_ctr {s s' : SwitchState} {p : Nat} {o : List Reply} (h : lookupPacket s p = .ok (s', o)) :
+    s'.lookupCount = s.lookupCount + 1 ∧ s'.matchedCount = s.matchedCount + (if hitOf s (some p) = true then 1 else 0) := by
+  unfold lookupPacket at h
+  split at h
+  · rename_i e he
+    have hany : hitOf s (some p) = true :=
+      List.any_eq_true.mpr ⟨e, List.mem_of_find?_eq_some he, List.find?_some he⟩
+    obtain ⟨a1, a2⟩ := runOuts_ctr h
+    rw [if_pos hany]; exact ⟨a1, a2⟩
+  · rename_i he
+    have hany : ¬ hitOf s (some p) = true := by
+      intro hh
+      obtain ⟨x, hx, hx2⟩ := List.any_eq_true.mp hh
+      have := List.find?_eq_none.mp he x hx
+      exact this hx2
+    rw [if_neg hany]
+    split at h
+    · injection h with h; injection h with h1 _; subst h1; exact ⟨rfl, rfl⟩
+    · injection h with h; injection h with h1 _; subst h1
+      exact bufferPacket_ctr { s with lookupCount := s.lookupCount + 1 }
+
+theorem outputAction_ctr {s s' : SwitchState} {ip : Option Nat} {port : Nat} {o : List Reply}
+    (h : outputAction s ip port = .ok (s', o)) :
+    s'.lookupCount = s.lookupCount + (if port = OFPP_TABLE then 1 else 0) ∧
+    s'.matchedCount = s.matchedCount + (if port = OFPP_TABLE ∧ hitOf s ip = true then 1 else 0) := by
+  unfold outputAction at h
+  split at h
+  · rename_i hp
+    cases ip with
+    | none => cases h
+    | some p =>
+      obtain ⟨a1, a2⟩ := lookupPacket_ctr h
+      rw [if_pos hp]
+      refine ⟨a1, ?_⟩
+      by_cases hh : hitOf s (some p) = true
+      · rw [if_pos ⟨hp, hh⟩]; rw [if_pos hh] at a2; exact a2
+      · rw [if_neg (fun c => hh c.2)]; rw [if_neg hh] at a2; exact a2
+  · rename_i hp
+    obtain ⟨a1, a2⟩ := outputPacket_ctr h
+    rw [if_neg hp, if_neg (fun c => hp c.1)]
+    exact ⟨a1, a2⟩
+
+/-- the packets an action list submits to the flow table: its `output:TABLE` actions in front of the first action whose
+type has no handler (processing stops there) -/
+def submits : List Act → Nat
+  | [] => 0
+  | a :: r =>
+    match actionTable.lookup a.ty with
+    | none => 0
+    | some .output => (if a.port = OFPP_TABLE then 1 else 0) + submits r
+    | some _ => submits r
+
+/-- processing an action list moves the table counters by exactly the packets it submits to the table -/
+theorem processActions_ctr (xid : Nat) (ip : Option Nat) (acts : List Act) {s s' : SwitchState} {o : List Reply}
+    (h : processActions xid ip s acts = .ok (s', o)) :
+    s'.lookupCount = s.lookupCount + submits acts ∧
+    s'.matchedCount = s.matchedCount + (if hitOf s ip = true then submits acts else 0) := by
+  induction acts generalizing s o with
+  | nil =>
+    simp only [processActions] at h
+    injection h with h; injection h with h1 _; subst h1
+    simp [submits]
+  | cons a rest ih =>
+    unfold processActions at h
+    unfold submits
+    cases hl : actionTable.lookup a.ty with
+    | none =>
+      rw [hl] at h; simp only at h
+      injection h with h; injection h with h1 _; subst h1
+      simp
+    | some ah =>
+      rw [hl] at h
+      cases ah with
+      | output =>
+        simp only at h
+        cases ho : outputAction s ip a.port with
+        | error e => rw [ho] at h; cases h
+        | ok r1 =>
+          obtain ⟨s1, o1⟩ := r1
+          rw [ho] at h; simp only at h
+          cases hp : processActions xid ip s1 rest with
+          | error e => rw [hp] at h; cases h
+          | ok r2 =>
+            obtain ⟨s2, o2⟩ := r2
+            rw [hp] at h; simp only at h
+            injection h with h; injection h with h1 _; subst h1
+            obtain ⟨a1, a2⟩ := outputAction_ctr ho
+            obtain ⟨b1, b2⟩ := ih hp
+            have ht : hitOf s1 ip = hitOf s ip := by
+              cases ip with
+              | none => rfl
+              | some p => simp only [hitOf, outputAction_table ho]
+            rw [ht] at b2
+            simp only
+            by_cases hh : hitOf s ip = true
+            · rw [if_pos hh] at b2 ⊢
+              by_cases hp' : a.port = OFPP_TABLE
+              · rw [if_pos hp'] at a1 ⊢; rw [if_pos ⟨hp', hh⟩] at a2; omega
+              · rw [if_neg hp'] at a1 ⊢; rw [if_neg (fun c => hp' c.1)] at a2; omega
+            · rw [if_neg hh] at b2 ⊢
+              rw [if_neg (fun c => hh c.2)] at a2
+              by_cases hp' : a.port = OFPP_TABLE
+              · rw [if_pos hp'] at a1 ⊢; omega
+              · rw [if_neg hp'] at a1 ⊢; omega
+      | enqueue => simp only at h; cases h
+      | setVlanVid => exact ih h
+      | setVlanPcp => exact ih h
+      | stripVlan => exact ih h
+      | setDlSrc => exact ih h
+      | setDlDst => exact ih h
+      | setNwSrc => exact ih h
+      | setNwDst => exact ih h
+      | setNwTos => exact ih h
+      | setTpSrc => exact ih h
+      | setTpDst => exact ih h
+
+/-- the actions of a packet_out are carried out: it brings the packet itself, or names a stored one -/
+def executes (s : SwitchState) (b : Option Nat) (d : Bool) : Bool :=
+  d || (match b with | some id => bufferLive s id | none => false)
+
+theorem processFromBuffer_ctr (xid : Nat) (ip : Option Nat) (acts : List Act) (id : Nat) {s s' : SwitchState} {o : List Reply}
+    (h : processFromBuffer xid ip s acts id = .ok (s', o)) :
+    s'.lookupCount = s.lookupCount + (if bufferLive s id = true then submits acts else 0) ∧
+    s'.matchedCount = s.matchedCount + (if bufferLive s id = true ∧ hitOf s ip = true then submits acts else 0) := by
+  unfold processFromBuffer at h
+  by_cases h0 : id = 0
+  · rw [if_pos h0] at h
+    injection h with h; injection h with h1 _; subst h1
+    have hd : ¬ bufferLive s id = true := by simp [bufferLive, h0]
+    rw [if_neg hd, if_neg (fun c => hd c.1)]; exact ⟨rfl, rfl⟩
+  · rw [if_neg h0] at h
+    by_cases hlt : id - 1 < s.buffers.length
+    · rw [dif_pos hlt] at h
+      by_cases hb : s.buffers[id - 1] = true
+      · rw [if_pos hb] at h
+        have hl : bufferLive s id = true := by
+          simp [bufferLive, List.getD_eq_getElem?_getD, List.getElem?_eq_getElem hlt, hb, h0]
+        cases hp : processActions xid ip s acts with
+        | error e => rw [hp] at h; cases h
+        | ok r =>
+          obtain ⟨s1, o1⟩ := r
+          rw [hp] at h; simp only at h
+          injection h with h; injection h with h1 _; subst h1
+          obtain ⟨a1, a2⟩ := processActions_ctr xid ip acts hp
+          rw [if_pos hl]
+          refine ⟨a1, ?_⟩
+          by_cases hh : hitOf s ip = true
+          · rw [if_pos ⟨hl, hh⟩]; rw [if_pos hh] at a2; exact a2
+          · rw [if_neg (fun c => hh c.2)]; rw [if_neg hh] at a2; exact a2
+      · rw [if_neg hb] at h
+        injection h with h; injection h with h1 _; subst h1
+        have hf : s.buffers[id - 1] = false := by
+          cases hh : s.buffers[id - 1] with
+          | false => rfl
+          | true => exact absurd hh hb
+        have hd : ¬ bufferLive s id = true := by
+          simp [bufferLive, List.getD_eq_getElem?_getD, List.getElem?_eq_getElem hlt, hf]
+        rw [if_neg hd, if_neg (fun c => hd c.1)]; exact ⟨rfl, rfl⟩
+    · rw [dif_neg hlt] at h
+      injection h with h; injection h with h1 _; subst h1
+      have hn : s.buffers[id - 1]? = none := List.getElem?_eq_none (by omega)
+      have hd : ¬ bufferLive s id = true := by
+        simp [bufferLive, List.getD_eq_getElem?_getD, hn]
+      rw [if_neg hd, if_neg (fun c => hd c.1)]; exact ⟨rfl, rfl⟩
+
+/-- a packet_out moves the table counters by exactly the packets its action list submits to the table — when its actions
+are carried out at all -/
+theorem rxPacketOut_ctr {s s' : SwitchState} {xid : Nat} {b : Option Nat} {d : Bool} {p : Nat} {acts : List Act} {o : List Reply}
+    (h : rxPacketOut s xid b d p acts = .ok (s', o)) :
+    s'.lookupCount = s.lookupCount + (if executes s b d = true then submits acts else 0) ∧
+    s'.matchedCount = s.matchedCount + (if executes s b d = true ∧ hitOf s (some p) = true then submits acts else 0) := by
+  unfold rxPacketOut at h
+  cases d with
+  | true =>
+    rw [if_pos rfl] at h
+    obtain ⟨a1, a2⟩ := processActions_ctr xid (some p) acts h
+    have he : executes s b true = true := rfl
+    rw [if_pos he]
+    refine ⟨a1, ?_⟩
+    by_cases hh : hitOf s (some p) = true
+    · rw [if_pos ⟨he, hh⟩]; rw [if_pos hh] at a2; exact a2
+    · rw [if_neg (fun c => hh c.2)]; rw [if_neg hh] at a2; exact a2
+  | false =>
+    rw [if_neg Bool.false_ne_true] at h
+    cases b with
+    | none =>
+      simp only at h; injection h with h; injection h with h1 _; subst h1
+      have he : ¬ executes s none false = true := by simp [executes]
+      rw [if_neg he, if_neg (fun c => he c.1)]; exact ⟨rfl, rfl⟩
+    | some id =>
+      have e : executes s (some id) false = bufferLive s id := by simp [executes]
+      rw [e]
+      exact processFromBuffer_ctr xid (some p) acts id h
+
+/-- without an in_port (a flow_mod's action list) nothing is submitted to the table: `output:TABLE` fails there -/
+theorem processActions_none_ctr (xid : Nat) (acts : List Act) {s s' : SwitchState} {o : List Reply}
+    (h : processActions xid none s acts = .ok (s', o)) : CtrSame s s' := by
+  induction acts generalizing s o with
+  | nil =>
+    simp only [processActions] at h
+    injection h with h; injection h with h1 _; subst h1; exact ⟨rfl, rfl⟩
+  | cons a rest ih =>
+    unfold processActions at h
+    cases hl : actionTable.lookup a.ty with
+    | none =>
+      rw [hl] at h; simp only at h
+      injection h with h; injection h with h1 _; subst h1; exact ⟨rfl, rfl⟩
+    | some ah =>
+      rw [hl] at h
+      cases ah with
+      | output =>
+        simp only at h
+        cases ho : outputAction s none a.port with
+        | error e => rw [ho] at h; cases h
+        | ok r1 =>
+          obtain ⟨s1, o1⟩ := r1
+          rw [ho] at h; simp only at h
+          cases hp : processActions xid none s1 rest with
+          | error e => rw [hp] at h; cases h
+          | ok r2 =>
+            obtain ⟨s2, o2⟩ := r2
+            rw [hp] at h; simp only at h
+            injection h with h; injection h with h1 _; subst h1
+            have c1 : CtrSame s s1 := by
+              unfold outputAction at ho
+              split at ho
+              · cases ho
+              · exact outputPacket_ctr ho
+            exact c1.trans (ih hp)
+      | enqueue => simp only at h; cases h
+      | setVlanVid => exact ih h
+      | setVlanPcp => exact ih h
+      | stripVlan => exact ih h
+      | setDlSrc => exact ih h
+      | setDlDst => exact ih h
+      | setNwSrc => exact ih h
+      | setNwDst => exact ih h
+      | setNwTos => exact ih h
+      | setTpSrc => exact ih h
+      | setTpDst => exact ih h
+
+theorem processFromBuffer_none_ctr (xid : Nat) (acts : List Act) (id : Nat) {s s' : SwitchState} {o : List Reply}
+    (h : processFromBuffer xid none s acts id = .ok (s', o)) : CtrSame s s' := by
+  unfold processFromBuffer at h
+  split at h
+  · injection h with h; injection h with h1 _; subst h1; exact ⟨rfl, rfl⟩
+  split at h
+  · split at h
+    · cases hp : processActions xid none s acts with
+      | error e => rw [hp] at h; cases h
+      | ok r =>
+        obtain ⟨s1, o1⟩ := r
+        rw [hp] at h; simp only at h
+        injection h with h; injection h with h1 _; subst h1
+        have c := processActions_none_ctr xid acts hp
+        exact ⟨c.1, c.2⟩
+    · injection h with h; injection h with h1 _; subst h1; exact ⟨rfl, rfl⟩
+  · injection h with h; injection h with h1 _; subst h1; exact ⟨rfl, rfl⟩
+
+theorem runFlowMod_ctr (h : FlowModH) (s : SwitchState) (xid command : Nat) (mk : MKey) (prio cookie flags idle hard outPort : Nat)
+    (acts : List Act) : CtrSame s (runFlowMod h s xid command mk prio cookie flags idle hard outPort acts).1 := by
+  have hadd : CtrSame s (flowModAdd s xid command mk prio cookie flags idle hard acts).1 := by
+    unfold flowModAdd
+    repeat' (first | split | dsimp only)
+    all_goals exact ⟨rfl, rfl⟩
+  have hmod : ∀ st, CtrSame s (flowModModify st s xid command mk prio cookie flags idle hard acts).1 := by
+    intro st
+    unfold flowModModify
+    split
+    · exact ⟨rfl, rfl⟩
+    · exact hadd
+  cases h with
+  | add => exact hadd
+  | modify => exact hmod false
+  | modifyStrict => exact hmod true
+  | delete => exact ⟨rfl, rfl⟩
+  | deleteStrict => exact ⟨rfl, rfl⟩
+
+/-- a flow_mod never moves the table counters: applying its actions to a buffered packet is no table lookup (and an
+`output:TABLE` in its action list is outside the model) -/
+theorem rxFlowMod_ctr {s s' : SwitchState} {xid command : Nat} {mk : MKey} {prio cookie flags idle hard outPort : Nat}
+    {b : Option Nat} {acts : List Act} {o : List Reply}
+    (h : rxFlowMod s xid command mk prio cookie flags idle hard outPort b acts = .ok (s', o)) : CtrSame s s' := by
+  unfold rxFlowMod at h
+  split at h
+  · injection h with h; injection h with h1 _; subst h1; exact ⟨rfl, rfl⟩
+  split at h
+  · injection h with h; injection h with h1 _; subst h1; exact ⟨rfl, rfl⟩
+  · unfold rxFlowModBody at h
+    cases hl : flowModTable.lookup command with
+    | none => rw [hl] at h; simp only at h; injection h with h; injection h with h1 _; subst h1; exact ⟨rfl, rfl⟩
+    | some hd =>
+      rw [hl] at h; simp only at h
+      have h2 := runFlowMod_ctr hd s xid command mk prio cookie flags idle hard outPort acts
+      cases b with
+      | none =>
+        simp only at h
+        injection h with h
+        rw [h] at h2
+        exact h2
+      | some id =>
+        simp only at h
+        cases hp : processFromBuffer xid none (runFlowMod hd s xid command mk prio cookie flags idle hard outPort acts).1 acts id with
+        | error e => rw [hp] at h; cases h
+        | ok r =>
+          obtain ⟨s2, o2⟩ := r
+          rw [hp] at h; simp only at h
+          injection h with h; injection h with h1 _; subst h1
+          exact h2.trans (processFromBuffer_none_ctr xid acts id hp)
+
+theorem rxPortMod_ctr (s : SwitchState) (xid portNo hw config mask : Nat) : CtrSame s (rxPortMod s xid portNo hw config mask).1 := by
+  unfold rxPortMod
+  repeat' (first | split | dsimp only)
+  all_goals exact ⟨rfl, rfl⟩
+
+theorem rxHello_ctr (s : SwitchState) : CtrSame s (rxHello s).1 := by
+  unfold rxHello; split <;> exact ⟨rfl, rfl⟩
+
+/-! ### no table entry re-submits the packets it hits (`output:TABLE` among its actions): then a lookup always ends -/
+
+def NoResubmit (s : SwitchState) : Prop := ∀ f ∈ s.table, OFPP_TABLE ∉ f.outs
+
+theorem outsOf_inScope {acts : List Act} (h : actsInScope acts) : OFPP_TABLE ∉ outsOf acts := by
+  intro hm
+  unfold outsOf at hm
+  obtain ⟨a, ha, e⟩ := List.mem_map.mp hm
+  have ha' := List.mem_filter.mp ha
+  have h0 : a.ty = 0 := by simpa using ha'.2
+  exact (h a ha'.1).2 ⟨h0, e⟩
+
+theorem runFlowMod_noresubmit (h : FlowModH) (s : SwitchState) (xid command : Nat) (mk : MKey) (prio cookie flags idle hard outPort : Nat)
+    (acts : List Act) (ha : OFPP_TABLE ∉ outsOf acts) (hs : NoResubmit s) :
+    NoResubmit (runFlowMod h s xid command mk prio cookie flags idle hard outPort acts).1 := by
+  have htfa : ∀ x ∈ tableForAdd command s.table mk prio, OFPP_TABLE ∉ x.outs := by
+    intro x hx
+    unfold tableForAdd at hx
+    split at hx
+    · exact hs x ((List.mem_filter.mp hx).1)
+    · exact hs x hx
+  have hadd : NoResubmit (flowModAdd s xid command mk prio cookie flags idle hard acts).1 := by
+    unfold flowModAdd
+    repeat' (first | split | dsimp only)
+    all_goals first
+      | exact hs
+      | (intro x hx; exact htfa x hx)
+      | (intro x hx
+         rcases mem_addEntry hx with rfl | h2
+         · exact ha
+         · exact htfa x h2)
+  have hmod : ∀ st, NoResubmit (flowModModify st s xid command mk prio cookie flags idle hard acts).1 := by
+    intro st
+    unfold flowModModify
+    split
+    · intro x hx
+      simp only [List.mem_map] at hx
+      obtain ⟨e, he, rfl⟩ := hx
+      split
+      · exact ha
+      · exact hs e he
+    · exact hadd
+  have hdel : ∀ st, NoResubmit (flowModDelete st s mk prio outPort).1 := by
+    intro st x hx
+    simp only [flowModDelete] at hx
+    exact hs x ((List.mem_filter.mp hx).1)
+  cases h with
+  | add => exact hadd
+  | modify => exact hmod false
+  | modifyStrict => exact hmod true
+  | delete => exact hdel false
+  | deleteStrict => exact hdel true
+
+theorem rxFlowMod_noresubmit {s s' : SwitchState} {xid command : Nat} {mk : MKey} {prio cookie flags idle hard outPort : Nat}
+    {b : Option Nat} {acts : List Act} {o : List Reply} (hs : NoResubmit s) (hsc : actsInScope acts)
+    (h : rxFlowMod s xid command mk prio cookie flags idle hard outPort b acts = .ok (s', o)) : NoResubmit s' := by
+  unfold rxFlowMod at h
+  split at h
+  · injection h with h; injection h with h1 _; subst h1; exact hs
+  split at h
+  · injection h with h; injection h with h1 _; subst h1; exact hs
+  · unfold rxFlowModBody at h
+    cases hl : flowModTable.lookup command with
+    | none => rw [hl] at h; simp only at h; injection h with h; injection h with h1 _; subst h1; exact hs
+    | some hd =>
+      have hf := runFlowMod_noresubmit hd s xid command mk prio cookie flags idle hard outPort acts (outsOf_inScope hsc) hs
+      rw [hl] at h; simp only at h
+      cases b with
+      | none =>
+        simp only at h
+        injection h with h
+        rw [h] at hf
+        exact hf
+      | some id =>
+        simp only at h
+        cases hp : processFromBuffer xid none (runFlowMod hd s xid command mk prio cookie flags idle hard outPort acts).1 acts id with
+        | error e => rw [hp] at h; cases h
+        | ok r =>
+          obtain ⟨s2, o2⟩ := r
+          rw [hp] at h; simp only at h
+          injection h with h; injection h with h1 _; subst h1
+          intro x hx
+          rw [processFromBuffer_table xid none acts id hp] at hx
+          exact hf x hx
+
+theorem runOuts_ok (outs : List Nat) (h : OFPP_TABLE ∉ outs) (s : SwitchState) :
+    ∃ s' o, runOuts s outs = .ok (s', o) ∧ ∀ r ∈ o, r.isAsync = true := by
+  induction outs generalizing s with
+  | nil => exact ⟨s, [], rfl, by simp⟩
+  | cons p r ih =>
+    obtain ⟨s1, o1, e1, a1⟩ := outputPacket_ok s p (fun hp => h (hp ▸ List.mem_cons_self))
+    obtain ⟨s2, o2, e2, a2⟩ := ih (fun hm => h (List.mem_cons_of_mem _ hm)) s1
+    refine ⟨s2, o1 ++ o2, by simp only [runOuts, e1, e2], ?_⟩
+    intro x hx
+    rcases List.mem_append.mp hx with h1 | h1
+    · exact a1 x h1
+    · exact a2 x h1
+
+/-- with no re-submitting entry in the table a lookup never fails and writes only asynchronous messages (packet_in) -/
+theorem lookupPacket_ok (s : SwitchState) (hs : NoResubmit s) (p : Nat) :
+    ∃ s' o, lookupPacket s p = .ok (s', o) ∧ ∀ r ∈ o, r.isAsync = true := by
+  unfold lookupPacket
+  split
+  · rename_i e he
+    exact runOuts_ok e.outs (hs e (List.mem_of_find?_eq_some he)) _
+  · split
+    · exact ⟨_, [], rfl, by simp⟩
+    · exact ⟨_, _, rfl, by simp [Reply.isAsync]⟩
+
+theorem rxPacket_ok (s : SwitchState) (hs : NoResubmit s) (p : Nat) :
+    ∃ s' o, rxPacket s p = .ok (s', o) ∧ ∀ r ∈ o, r.isAsync = true := by
+  unfold rxPacket
+  split
+  · exact ⟨s, [], rfl, by simp⟩
+  · split
+    · exact ⟨s, [], rfl, by simp⟩
+    · exact lookupPacket_ok s hs p
+
+theorem rxPacket_table {s s' : SwitchState} {p : Nat} {o : List Reply} (h : rxPacket s p = .ok (s', o)) : s'.table = s.table := by
+  unfold rxPacket at h
+  split at h
+  · injection h with h; injection h with h1 _; subst h1; rfl
+  · split at h
+    · injection h with h; injection h with h1 _; subst h1; rfl
+    · exact lookupPacket_table h
+
+/-- a frame from the data plane is looked up at most once, and counted as matched only if it was looked up -/
+theorem rxPacket_ctr {s s' : SwitchState} {p : Nat} {o : List Reply} (h : rxPacket s p = .ok (s', o)) :
+    CtrSame s s' ∨ (s'.lookupCount = s.lookupCount + 1 ∧ s'.matchedCount = s.matchedCount + (if hitOf s (some p) = true then 1 else 0)) := by
+  unfold rxPacket at h
+  split at h
+  · injection h with h; injection h with h1 _; subst h1; exact .inl ⟨rfl, rfl⟩
+  · split at h
+    · injection h with h; injection h with h1 _; subst h1; exact .inl ⟨rfl, rfl⟩
+    · exact .inr (lookupPacket_ctr h)
 
 end Pox.SwitchReq
